@@ -194,6 +194,9 @@ def run(chk):
         kind = rng.choice(["power", "power", "custom-sd", "custom-corr"])
         if it == 2:
             kind = "custom-corr"            # every run: a finite-memory custom correlation function (below)
+        if it == 4 or it == 7:
+            # every run: sub-ohmic power laws at zero temperature with the exponential cut-off (where closed forms exist: Gamma(zeta - 1) < 0)
+            T, zeta, ctype, kind = 0.0, [0.5, 0.75][it // 7], "exponential", "power"
         pw = oqupy.PowerLawSD(alpha=alpha, zeta=zeta, cutoff=wc, cutoff_type=ctype, temperature=T)
         if kind == "power":
             corr = pw
